@@ -12,7 +12,7 @@ static const int NKEYS = 13;
 struct Val { char type; long i; double d; std::string s; };
 static std::vector<Val> VALS;
 static void init_vals() {
-	VALS.resize(17);
+	VALS.resize(23);
 	VALS[1] = {'i', 42, 0, "42"}; VALS[2] = {'i', -7, 0, "-7"}; VALS[3] = {'d', 0, 2.5, "2.5"}; VALS[4] = {'d', 0, 1e-30, "1e-30"};
 	VALS[5] = {'s', 0, 0, ""}; VALS[6] = {'s', 0, 0, "hello world"}; VALS[7] = {'s', 0, 0, "trailing  "};
 	VALS[8] = {'s', 0, 0, std::string(68, 'x')}; VALS[8].s[0] = 'B'; VALS[8].s[67] = 'E';
@@ -23,6 +23,8 @@ static void init_vals() {
 	VALS[14] = {'s', 0, 0, std::string(30, 'v')}; VALS[14].s[29] = 'W';
 	VALS[15] = {'s', 0, 0, std::string(67, 'z') + "'"};
 	VALS[16] = {'i', 2147483647, 0, "2147483647"};
+	VALS[17] = {'s', 0, 0, "''"}; VALS[18] = {'s', 0, 0, "a'''b"}; VALS[19] = {'s', 0, 0, "say '' twice"};
+	VALS[20] = {'s', 0, 0, std::string(34, '\'')}; VALS[21] = {'s', 0, 0, std::string(35, '\'')}; VALS[22] = {'s', 0, 0, "'x' 'y"};
 }
 static std::string rstrip(std::string s) { while (!s.empty() && s.back() == ' ') s.pop_back(); return s; }
 static int key_id(const char* k) { for (int i = 1; i <= NKEYS; i++) if (!strcmp(k, KEYS[i])) return i; return 99; }
